@@ -6,3 +6,4 @@ import AutomataVerif.Props.C19b
 import AutomataVerif.Props.C19d
 import AutomataVerif.Props.C19e
 import AutomataVerif.Props.C19f
+import AutomataVerif.Props.C19g
